@@ -104,6 +104,13 @@ func NewSparseFile(name string, idx Index, s Store, opt SparseFileOptions) (*Spa
 		}
 	}
 
+	// The sparse file was (re-)initialized without using the saved state. Replace
+	// that state now, it would otherwise be paired with this file on the next
+	// start and mark ranges as populated that are not.
+	if err := sf.WriteState(); err != nil {
+		return nil, err
+	}
+
 	return sf, nil
 }
 
